@@ -18,6 +18,7 @@ type Choices struct {
 // RNG is splitmix64.
 type RNG struct{ s uint64 }
 
+//go:norace
 func (r *RNG) Next() uint64 {
 	r.s += 0x9e3779b97f4a7c15
 	z := r.s
@@ -26,6 +27,7 @@ func (r *RNG) Next() uint64 {
 	return z ^ (z >> 31)
 }
 
+//go:norace
 func (r *RNG) Intn(n int) int {
 	if n <= 1 {
 		return 0
@@ -34,6 +36,8 @@ func (r *RNG) Intn(n int) int {
 }
 
 // Mix hashes several integers into one seed.
+//
+//go:norace
 func Mix(vs ...uint64) uint64 {
 	h := uint64(0x8422d1f2a9c3b5e7)
 	for _, v := range vs {
@@ -44,14 +48,17 @@ func Mix(vs ...uint64) uint64 {
 	return h
 }
 
+//go:norace
 func NewSearch(seed uint64) *Choices {
 	return &Choices{rng: RNG{seed}}
 }
 
+//go:norace
 func NewReplay(list []uint32) *Choices {
 	return &Choices{Replay: true, list: list}
 }
 
+//go:norace
 func (c *Choices) next(n int) (int, bool) {
 	if c.pos < len(c.list) {
 		v := int(c.list[c.pos] % uint32(n))
@@ -64,6 +71,8 @@ func (c *Choices) next(n int) (int, bool) {
 }
 
 // Intn returns an answer in [0,n); uniform in search mode.
+//
+//go:norace
 func (c *Choices) Intn(n int) int {
 	if n <= 1 {
 		return 0
@@ -80,6 +89,8 @@ func (c *Choices) Intn(n int) int {
 
 // Pick returns an answer in [0,n); in search mode gen proposes it (so that a
 // strategy can bias it); in replay mode the recorded answer is used.
+//
+//go:norace
 func (c *Choices) Pick(n int, gen func(r *RNG) int) int {
 	if n <= 1 {
 		return 0
@@ -99,6 +110,8 @@ func (c *Choices) Pick(n int, gen func(r *RNG) int) int {
 
 // Weighted returns index i with probability w[i]/sum(w); index 0 should be the
 // simplest alternative.
+//
+//go:norace
 func (c *Choices) Weighted(w ...int) int {
 	return c.Pick(len(w), func(r *RNG) int {
 		tot := 0
@@ -120,11 +133,15 @@ func (c *Choices) Weighted(w ...int) int {
 }
 
 // Chance is true with probability num/den (false is the simple answer).
+//
+//go:norace
 func (c *Choices) Chance(num, den int) bool {
 	return c.Weighted(den-num, num) == 1
 }
 
 // Range returns a value in [lo,hi].
+//
+//go:norace
 func (c *Choices) Range(lo, hi int) int {
 	if hi <= lo {
 		return lo
@@ -134,6 +151,8 @@ func (c *Choices) Range(lo, hi int) int {
 
 // Raw gives world code access to an auxiliary PRNG answer that is recorded as
 // one choice (used for payload seeds and the like).
+//
+//go:norace
 func (c *Choices) Raw() uint32 {
 	var v uint32
 	if c.Replay {
